@@ -6,7 +6,7 @@ VERIF_REPO pointing at it.  Writes seeded/MATRIX.json:
 import json, os, subprocess, sys, tempfile, shutil
 EXTRA = {'C02-2': ['C12', 'C01'], 'C04-2': ['C01'], 'C11-1': ['C12'], 'C01-2': ['C13'], 'C08-2': ['C09'], 'C09-1': ['C08'], 'C20-2': ['C13'],
          'C16-2': ['C07'], 'C07-2': ['C16'], 'C13-1': ['C20'],
-         'C01-3': ['C13'], 'C01-4': ['C13'], 'C18-3': ['C13', 'C08'], 'C06-4': ['C02'], 'C17-4': ['C12'], 'C19-4': ['C10', 'C07']}
+         'C01-3': ['C13'], 'C01-4': ['C13'], 'C18-3': ['C13', 'C08'], 'C06-4': ['C02'], 'C17-4': ['C12'], 'C19-4': ['C10']}
 only = sys.argv[1:]
 out_path = '/verif/seeded/MATRIX.json'
 M = json.load(open(out_path)) if os.path.exists(out_path) else {}
